@@ -460,6 +460,29 @@ def run(ctx):
         st = U.Style(rng, strict=True); st.omit_struct_fields = False
         for pf in (0, 2):
             cases.append(('tiny-nested-struct', 'Tiny', v, U.render_root('Tiny', v, st), pf, rng.choice([0, 2]), True))
+    # sibling nested buffers with identical layout (values through dump and json.loads)
+    for k in range(10):
+        g = U.Gen(rng, max_depth=3, text='utf8')
+        v = g.table('Twin', 0, p_present=1.0)
+        if k % 2 == 0 and 'a' in v: v['b'] = dict(v['a'])
+        st = U.Style(rng, strict=True); st.omit_struct_fields = False
+        cases.append(('sibling-nested', 'Twin', v, U.render_root('Twin', v, st), rng.choice([0, 2]), 0, True))
+    # structs with a deprecated member first / middle / last: as table field, vector element and struct root, every printer flag set
+    for k in range(6):
+        g = U.Gen(rng, max_depth=2, text='utf8')
+        v = g.table('DpT', 0, p_present=1.0)
+        st = U.Style(rng, strict=True); st.omit_struct_fields = False
+        text = U.render_root('DpT', v, st)
+        for pf in allpf: cases.append(('deprecated-struct-member', 'DpT', v, text, pf, rng.choice([0, 2]), True))
+        v1 = g.struct('Dp1')
+        for pf in (0, 1, 2, 8): cases.append(('deprecated-struct-member', 'Dp1', v1, U.render_root('Dp1', v1, st), pf, 0, True))
+    # a table type with two or more unions occurring repeatedly (vector elements, sibling fields), the non-first unions present in every instance
+    for k in range(12):
+        g = U.Gen(rng, max_depth=3, text='utf8')
+        mk = lambda t: g.table(t, 1, p_present=1.0)
+        v = {'xs': [mk('DepMid') for _ in range(rng.choice([2, 3]))], 'a': mk('DepMid'), 'b': mk('DepMid'), 'ys': [mk('DepLast') for _ in range(2)]}
+        st = U.Style(rng, strict=True); st.union_order = ['type_first', 'value_first', 'split'][k % 3]; st.omit_struct_fields = False
+        cases.append(('repeated-multi-union', 'Multi', v, U.render_root('Multi', v, st), rng.choice([0, 1, 2]), rng.choice([0, 2]), True))
     # a bit_flags enum that defines every bit of its base type: value 0 (no flag), all bits, in a field and in a vector
     for body, v in ((b'{"full":0}', {'full': 0}), (b'{"full":255}', {'full': 255}), (b'{"vfull":[0,1,255,0]}', {'vfull': [0, 1, 255, 0]}), (b'{"vfull":[0]}', {'vfull': [0]}),
                     (b'{"full":128,"vfull":[3,0,0]}', {'full': 128, 'vfull': [3, 0, 0]}), (b'{}', {})):
@@ -521,6 +544,9 @@ def run(ctx):
         if (p1 != 0 or deq != 1) and full_zero(root, v, pf, t1):
             ctx.violation('bitflags-zero-all-bits', 'a bit_flags enum that defines every bit of its base type prints the value 0 as an empty symbol list (`""`, or nothing with unquote): '
                           '%s (printer flags %d)' % ('the generated parser rejects the text with error %d' % p1 if p1 != 0 else 'the element disappears on reparse', pf), replay); continue
+        if p1 != 0 and klass == 'deprecated-struct-member' and re.search(rb'\{\s*,', t1):
+            ctx.violation('struct-deprecated-first-member-comma', 'a struct whose FIRST member is deprecated prints with a leading comma (`{,"b":...}`): not JSON, and the generated parser rejects it with error %d '
+                          '(printer flags %d)' % (p1, pf), replay); continue
         if p1 != 0:
             ctx.violation('reparse-fails', 'printed text is rejected by the generated parser with error %d (printer flags %d, indent %d)' % (p1, pf, indent), replay); continue
         if v1 != 0:
